@@ -236,3 +236,36 @@ Section Sync.
      processing a stripe only changes that stripe, so evaluating stripe_enabled lazily is equivalent. *)
 
 End Sync.
+
+(* --- saving the state (state_write_content: the parts that change it) ------------------------------------- *)
+(* blockmax = parity_allocated_size: one past the highest position holding a FILE block (DELETED do not count) *)
+Definition file_positions (c : content) : list nat :=
+  flat_map (fun od => match od with
+                      | Some d => flat_map (fun f => map fb_pos (cf_blocks f)) (cd_files d)
+                      | None => [] end) (c_disks c).
+Definition allocated_size (c : content) : nat := fold_left (fun m p => Nat.max m (S p)) (file_positions c) 0%nat.
+(* fs_position_is_required *)
+Definition position_required (c : content) (pos : nat) : bool := existsb (Nat.eqb pos) (file_positions c).
+
+Definition save_normalise (c : content) : content :=
+  let bm := allocated_size c in
+  let req := position_required c in
+  mkC (map (fun od => match od with
+                      | Some d => Some (mkCD (cd_files d)
+                                             (filter (fun ph => (fst ph <? bm)%nat && req (fst ph)) (cd_deleted d))
+                                             (cd_links d) (cd_dirs d))
+                      | None => None end) (c_disks c))
+      (map (fun p => if req p then nth p (c_info c) None else None) (seq 0 bm))
+      bm.
+
+(* loading with clear_past_hash (sync): the past hashes of CHG and DELETED blocks are set to INVALID *)
+Definition clear_past (c : content) : content :=
+  mkC (map (fun od => match od with
+                      | Some d => Some (mkCD (map (fun f => mkCF (cf_name f) (cf_size f) (cf_mtime f) (cf_nsec f) (cf_inode f) (cf_copy f)
+                                                       (map (fun b => match fb_state b with SChg => mkFB SChg (fb_pos b) HInvalid | _ => b end) (cf_blocks f)))
+                                                  (cd_files d))
+                                             (map (fun ph => (fst ph, HInvalid)) (cd_deleted d))
+                                             (cd_links d) (cd_dirs d))
+                      | None => None end) (c_disks c))
+      (c_info c) (c_blockmax c).
+
